@@ -497,6 +497,14 @@ inductive Op where
       `fix_type_references` when a deletion made it remove members (only exercised, taken from the live object). -/
   | replaceTypes (entries : List (String × Option TypeD × Bool))
       (dirEntries : List (String × Option DirectiveD × Bool) := []) (healed : Option SchemaD := none)
+  /-- the remaining public setters of types.py / schema.py, which change the STRUCTURE by plain assignment:
+      `Field.type`, `InputValue.type`, `InputValue.default_value` (set / del), `fields` (object, interface, input
+      object), `ObjectType.interfaces`, `UnionType.types`, the `type` of a list / non-null wrapper, `name`,
+      `Schema.query_type` ...: the description becomes `s'`. `seen`: the assignment changes the tuple
+      `Schema._current_resolvers()` that `validate()` compares by identity (resolver callables; per field of an object
+      / interface type its argument objects with their `python_name`, `has_default_value` and `type` object; the NUMBER
+      of fields and of such types) - only then is the verdict recomputed. -/
+  | assignStructure (s' : SchemaD) (seen : Bool)
   deriving Repr, Inhabited
 
 inductive Outcome where
@@ -660,6 +668,9 @@ def step (st : CacheState) : Op → CacheState × Outcome
     ({ st with schema := setFieldArgs st.schema tn fn args, isValid := st.isValid && !cfgCacheTracksArguments }, .ok)
   | .replaceTypes entries dirEntries healed =>
     replaceStep replaceAccumulates replaceAtomic replaceDirectivesBust st entries dirEntries healed
+  | .assignStructure s' seen =>
+    -- nothing but the `_current_resolvers()` comparison of `validate()` notices a plain assignment
+    ({ st with schema := s', isValid := st.isValid && !seen }, .ok)
 
 def run (st : CacheState) : List Op → CacheState
   | [] => st
